@@ -126,7 +126,10 @@ impl Worker {
             {
                 match job {
                     Job::Task(task) => {
-                        let _ = task();
+                        // A panicking task must not take its worker down: the pool would shrink for
+                        // good and, once empty, every later caller would wait forever. The task's
+                        // result channel is dropped by the unwinding, so its caller still sees an error.
+                        let _ = std::panic::catch_unwind(std::panic::AssertUnwindSafe(task));
                     }
                     Job::Shutdown => break,
                 }
